@@ -26,7 +26,7 @@ BASE_FACEBOOK_URL = "https://www.facebook.com"
 
 FACEBOOK_ID_RE = re.compile(r"^\d+$")
 FACEBOOK_FULL_ID_RE = re.compile(r"^\d+_\d+$")
-FACEBOOK_DOMAIN_RE = re.compile(r"(?:facebook\.[^.]+$|fb\.me$)", re.I)
+FACEBOOK_DOMAIN_RE = re.compile(r"(?:^|\.)(?:facebook\.[^.]+|fb\.me)$", re.I)
 FACEBOOK_URL_RE = re.compile(
     DOMAIN_TEMPLATE % r"(?:[^.]+\.)*(?:facebook\.[^.]+|fb\.me)", re.I
 )
@@ -54,10 +54,16 @@ def is_facebook_url(url):
         bool: Whether given url is from Facebook.
 
     """
-    if isinstance(url, SplitResult):
-        return bool(re.search(FACEBOOK_DOMAIN_RE, url.hostname))
+    # NOTE: only the hostname decides, whatever the form the url is given in
+    try:
+        hostname = safe_urlsplit(url).hostname
+    except ValueError:
+        return False
 
-    return bool(re.match(FACEBOOK_URL_RE, url))
+    if not hostname:
+        return False
+
+    return bool(re.search(FACEBOOK_DOMAIN_RE, hostname))
 
 
 def is_facebook_post_url(url):
